@@ -61,7 +61,10 @@ func Compile(grammar *Grammar, opts Options) (*Tables, error) {
 	if opts.MinimizeDFA {
 		minimize(c.out, grammar)
 	}
-	if opts.Optimize {
+	if opts.Optimize && c.out.UsedLADepth > 0 {
+		// Note: the compressed encoding has no room for the additional lookahead tables.
+		c.s.Errorf(c.grammar.Origin, "optimized tables are not supported for grammars that need more than one token of lookahead")
+	} else if opts.Optimize {
 		numRules := len(c.out.RuleLen) // takes into account runtime lookahead rules
 		c.out.Optimized = Optimize(c.out.DefaultEnc, grammar.Terminals, numRules, opts.DefaultReduce)
 	}
